@@ -777,9 +777,11 @@ def run(ctx):
     ctx.log('%d sensitive models, %d rewrite plans submitted' % (stats['models'], len(plan_futures)))
 
     # ---- meanwhile: backend/optimiser agreement on the original models, in this process ----
+    agree_models = []
     for k in sorted(bases):
         j = jobs[k]
         ws, mu_test = gen_case(core.random.Random(j['seed']))
+        agree_models.append((ws, mu_test))
         base = bases[k]['base']
         if (j['backend'], j['optimizer']) != ('numpy', 'scipy'):
             try:
@@ -810,6 +812,31 @@ def run(ctx):
                 fails.append(dict(signature='config-dependence:' + key, what='inference differs between numpy/scipy and %s/%s: %s' % (be, opt, '; '.join(bad)[:300]),
                                   replay=dict(workspace=ws, rewritten=ws, mu_test=mu_test, observed=other, expected=dict(relation='equal', original=base), backend=be, optimizer=opt)))
     ctx.log('backend/optimiser agreement done: %r' % stats['configs'])
+    # the two optimisers, each asked for a tight tolerance through its constructor (the only way to configure the fits behind hypotest /
+    # upper_limit), must agree far better than at their default tolerances: twice_nll minimum to 2e-6 absolute, CLs to 2e-5 relative.
+    # A single model may hit an optimiser hiccup (C05's known findings): reported only when most models disagree.
+    tight_bad, tight_n = [], 0
+    for k, (ws, mu_test) in enumerate(agree_models[: ctx.n(3, 8)]):
+        try:
+            a, b = infer(ws, mu_test, 'numpy', 'scipy', tight=True), infer(ws, mu_test, 'numpy', 'minuit', tight=True)
+        except Exception as e:
+            ctx.notes.append('tight scipy/minuit comparison skipped (%s)' % core.exc_enum(e))
+            continue
+        tight_n += 1
+        evaluations += 1
+        d_nll = abs(a['twice_nll'] - b['twice_nll'])
+        d_cls = abs(a['CLs_obs'] - b['CLs_obs']) / max(abs(a['CLs_obs']), 1e-300) if 'CLs_obs' in a and 'CLs_obs' in b else 0.0
+        if d_nll > 2e-6 or d_cls > 2e-5:
+            tight_bad.append(dict(workspace=ws, mu_test=mu_test, scipy=a, minuit=b, d_twice_nll=d_nll, d_cls_rel=d_cls))
+    stats['tight_optimiser_pairs'] = tight_n
+    if tight_n >= 2 and len(tight_bad) * 2 > tight_n:
+        w0 = min(tight_bad, key=lambda t: len(json.dumps(t['workspace'])))
+        fails.append(dict(signature='optimisers-disagree-at-tight-tolerance',
+                          what='scipy_optimizer(tolerance=1e-12) and minuit_optimizer(tolerance=1e-4) disagree on %d of %d models: e.g. twice_nll %r vs %r, CLs %r vs %r'
+                               % (len(tight_bad), tight_n, w0['scipy']['twice_nll'], w0['minuit']['twice_nll'], w0['scipy'].get('CLs_obs'), w0['minuit'].get('CLs_obs')),
+                          replay=dict(workspace=w0['workspace'], rewritten=w0['workspace'], mu_test=w0['mu_test'], observed=w0['minuit'],
+                                      expected=dict(relation='equal', original=w0['scipy']), backend='numpy', optimizer='minuit(tight) vs scipy(tight)')))
+    ctx.log('tight optimiser agreement: %d pairs, %d beyond 2e-6 / 2e-5' % (tight_n, len(tight_bad)))
     for fu in plan_futures:
         r = fu.result()
         if not r['names']:
